@@ -95,6 +95,8 @@ add('C06','url-without-lock',TR,"func (tree *Tree[T]) URL(buf *errwrap.StringBui
 add('C06','summary-read-unlocked',ME,"func (n *node[T]) AllowHeader() string { return getMethodIndexEntity(n.getMethodIndex()).options }","func (n *node[T]) AllowHeader() string { return getMethodIndexEntity(n.methodIndex).options }",'violation:C06.R1')
 add('C06','leak-lock-in-Routes',TR,"func (tree *Tree[T]) Routes() map[string][]string {\n	if tree.locker != nil {\n		tree.locker.RLock()\n		defer tree.locker.RUnlock()\n	}","func (tree *Tree[T]) Routes() map[string][]string {\n	if tree.locker != nil {\n		tree.locker.RLock()\n	}",'violation:C06.R2')
 add('C06','reentrant-rlock-in-routes',ND,"		routes[n.Pattern()] = getMethodIndexEntity(n.methodIndex).methods // 已经在 Routes 的锁范围之内","		routes[n.Pattern()] = n.Methods()",'violation:C06.R2')
+add('C06','lock-order-inverted',ME,"func (n *node[T]) AllowHeader() string { return getMethodIndexEntity(n.getMethodIndex()).options }","func (n *node[T]) AllowHeader() string {\n	methodIndexesLocker.RLock()\n	defer methodIndexesLocker.RUnlock()\n	return methodIndexes[n.getMethodIndex()].options\n}",'violation:C06.R3')
+add('C06','benign-memo-read-before-tree-lock-released',ME,"func (n *node[T]) AllowHeader() string { return getMethodIndexEntity(n.getMethodIndex()).options }","func (n *node[T]) AllowHeader() string {\n	i := n.getMethodIndex()\n	e := getMethodIndexEntity(i)\n	return e.options\n}",'silent')
 add('C06','benign-explicit-unlock',TR,"func (tree *Tree[T]) Clean(prefix string) {\n	if tree.locker != nil {\n		tree.locker.Lock()\n		defer tree.locker.Unlock()\n	}\n\n	tree.node.clean(prefix)\n	tree.recountMethods()\n}","func (tree *Tree[T]) Clean(prefix string) {\n	if tree.locker != nil {\n		tree.locker.Lock()\n	}\n\n	tree.node.clean(prefix)\n	tree.recountMethods()\n	if tree.locker != nil {\n		tree.locker.Unlock()\n	}\n}",'silent')
 add('C06','benign-local-lock-alias',TR,"func (tree *Tree[T]) Clean(prefix string) {\n	if tree.locker != nil {\n		tree.locker.Lock()\n		defer tree.locker.Unlock()\n	}","func (tree *Tree[T]) Clean(prefix string) {\n	if l := tree.locker; l != nil {\n		l.Lock()\n		defer l.Unlock()\n	}",'silent')
 
@@ -111,6 +113,8 @@ add('C07','destroy-before-serve',RO,"	r.serveContext(w, req, ctx)\n	ctx.Destroy(
 add('C07','second-pool-user',CT,"func (ctx *Context) Params() Params { return ctx }","func (ctx *Context) Params() Params { return ctx }\n\nfunc (ctx *Context) Clone() *Context {\n	c := contextPool.Get().(*Context)\n	c.Path = ctx.Path\n	return c\n}",'violation:C07.R3')
 add('C07','benign-reset-order',CT,"	ctx.Path = \"\"\n	clear(ctx.params)\n	ctx.routerName = \"\"\n	ctx.node = nil","	ctx.node = nil\n	ctx.routerName = \"\"\n	clear(ctx.params)\n	ctx.Path = \"\"",'silent')
 
+add('C07','memo-lock-leaked-on-early-return',ME,"	methodIndexesLocker.Lock()\n	defer methodIndexesLocker.Unlock()\n\n	if _, found := methodIndexes[index]; found {\n		return\n	}\n","	methodIndexesLocker.Lock()\n\n	if _, found := methodIndexes[index]; found {\n		return\n	}\n	defer methodIndexesLocker.Unlock()\n",'violation:C07.R2c')
+add('C07','benign-memo-explicit-unlock',ME,"func getMethodIndexEntity(index int) methodIndexEntity {\n	methodIndexesLocker.RLock()\n	defer methodIndexesLocker.RUnlock()\n	return methodIndexes[index]\n}","func getMethodIndexEntity(index int) methodIndexEntity {\n	methodIndexesLocker.RLock()\n	e := methodIndexes[index]\n	methodIndexesLocker.RUnlock()\n	return e\n}",'silent')
 # ---------------- C08
 add('C08','drop-head-install',ME,"		if m == http.MethodGet {\n			n.handlers[http.MethodHead] = ApplyMiddleware(h, http.MethodHead, pattern, n.root.Name(), ms...)\n		}\n","",'violation:C08.R1')
 add('C08','head-without-middlewares',ME,"n.handlers[http.MethodHead] = ApplyMiddleware(h, http.MethodHead, pattern, n.root.Name(), ms...)","n.handlers[http.MethodHead] = ApplyMiddleware(h, http.MethodHead, pattern, n.root.Name())",'violation:C08.R1')
